@@ -1,29 +1,46 @@
 //! C08 — every JWS the library produces decodes and verifies to what was signed.
 //!
-//! (a) `encoders` (full product): encoder {Compact::new, Compact(NonDetached Default|UrlSafe), Compact(Detached),
-//!     Flattened attached|detached, General attached|detached with 1..3 recipients} x per-recipient header
-//!     placement (7) x b64 mode (5) x payload menu (14). Whatever the encoder ACCEPTS is signed with a fixed-seed
-//!     Ed25519 key per recipient, finished with `into_jws` and fed to the matching decoder (detached payload
-//!     supplied iff detached). Oracle: decodes; signing input, claims, both headers and signature bytes equal what
-//!     was signed; the signing input equals the RFC 7515 §5.1 / RFC 7797 §3 formula evaluated on the TOKEN text;
-//!     verifies under the recipient's key and not under another key.
-//! (b) `storage` (E1 choice DFS, deviation-bounded): CoreDocument with m1 (assertionMethod, embedded), m2 (general),
-//!     m3 (general, referenced from authentication) generated in JwkMemStore/KeyIdMemstore; entry
-//!     {create_jws, create_credential_jwt, create_presentation_jwt} x method x payload x JwsSignatureOptions
-//!     {kid override (custom / other method / fragment / own id), attach_jwk, b64, typ, cty, url, nonce, custom
-//!     parameters, detached}. Every produced token: decoded by the library's decoder, compared with the bytes the
-//!     key store was asked to sign, header checked against the options, then verified through
-//!     `CoreDocument::verify_jws` under EVERY (method_id in {none,m1,m2,m3}) x (scope in {none + 6}) x (nonce in
-//!     {same, different, presence flipped}) and against a twin document with the same ids and other keys.
+//! (a) `encoders` (full products): encoder {Compact::new, Compact(NonDetached Default|UrlSafe), Compact(Detached),
+//!     Flattened attached|detached, General attached|detached with 1..3 (thorough: 4) recipients} x per-recipient header
+//!     placement (10, incl. a header with every registered parameter, the same split over both headers, and custom
+//!     parameters overlapping between the two headers) x b64 mode (5) x payload menu (14). Whatever the encoder ACCEPTS
+//!     is signed with a fixed-seed Ed25519 key per recipient, finished with `into_jws` and fed to the matching decoder
+//!     (detached payload supplied iff detached). Oracle: decodes; signing input, claims, both headers and signature
+//!     bytes equal what was signed; the signing input equals the RFC 7515 §5.1 / RFC 7797 §3 formula evaluated on the
+//!     TOKEN text; verifies under the recipient's key and not under another key.
+//!     `byte sweep`: every one-byte payload 0x00..0xff alone and embedded in `a?z`, UTF-8 boundary scalars, literal
+//!     escape look-alikes (`\u0041`, `\n` as two characters ...), all strings of length <= 2 (thorough: 4) over a
+//!     12-byte escape-relevant alphabet, x all 8 encoders x b64 {absent, false+crit}: the same
+//!     oracle, which makes every JSON escape (RFC 8259 §7) of an unencoded payload in the JSON serializations demanded,
+//!     plus the documented `CharSet::UrlSafe` restriction (accepted unencoded payload => URL-safe characters only).
+//! (b) `storage` (E1 choice DFS, deviation-bounded): a CoreDocument AND an IotaDocument (every case runs on both), each
+//!     with m1 (assertionMethod, embedded), m2 (general, referenced from keyAgreement and capabilityInvocation), m3
+//!     (general, referenced from authentication), m4 (authentication, embedded) generated in JwkMemStore/KeyIdMemstore;
+//!     entry {create_jws, create_credential_jwt (credential menu, custom claims), create_presentation_jwt (presentation
+//!     menu x JwtPresentationOptions)} x method x payload x JwsSignatureOptions {kid override (custom / other method /
+//!     fragment / own id), attach_jwk, b64, typ, cty, url, nonce (none / value / empty string), custom parameters,
+//!     detached}. Every produced token: decoded by the library's decoder, compared with the bytes the key store was
+//!     asked to sign, header checked against the options, then verified through `CoreDocument::verify_jws` /
+//!     `IotaDocument::verify_jws` under EVERY (method_id in {none,m1..m4}) x (scope in {none + 6}) x (nonce in {same,
+//!     different, presence flipped, empty/non-empty flipped}) and against a twin document with the same ids and other
+//!     keys. Credential / presentation JWTs are additionally pushed through `JwtCredentialValidator::validate` /
+//!     `JwtPresentationValidator::validate` with the signing document as issuer / holder under (method_id in {none,
+//!     own, other}) x (nonce same / different) x (scope none / containing / excluding): accepted only for the method
+//!     they were made for, and what is returned equals the credential (+ custom claims) / presentation (+ aud, exp,
+//!     issuance date, custom claims) that was signed.
 
 use async_trait::async_trait;
 use identity_core::common::{Object, Url};
-use identity_credential::credential::{Credential, CredentialBuilder, Jwt, Subject};
+use identity_credential::credential::{Credential, CredentialBuilder, Jws, Jwt, Subject};
 use identity_credential::presentation::{JwtPresentationOptions, Presentation, PresentationBuilder};
+use identity_credential::validator::{
+  FailFast, JwtCredentialValidationOptions, JwtCredentialValidator, JwtPresentationValidationOptions, JwtPresentationValidator,
+};
 use identity_did::{CoreDID, DIDUrl};
 use identity_document::document::CoreDocument;
 use identity_document::verifiable::JwsVerificationOptions;
 use identity_eddsa_verifier::EdDSAJwsVerifier;
+use identity_iota_core::{IotaDID, IotaDocument};
 use identity_jose::jwk::Jwk;
 use identity_jose::jws::{
   CharSet, CompactJwsEncoder, CompactJwsEncodingOptions, Decoder, FlattenedJwsEncoder, GeneralJwsEncoder, JwsAlgorithm, JwsHeader,
@@ -62,6 +79,36 @@ fn payloads() -> Vec<Vec<u8>> {
   ]
 }
 const N_PAYLOADS: usize = 14;
+/// The byte sweep: every byte alone and embedded, UTF-8 boundary scalars alone and embedded, and texts that LOOK like
+/// JSON escapes but are plain characters (they must come back as they went in).
+fn sweep_payloads(max_len: usize) -> Vec<Vec<u8>> {
+  let mut v: Vec<Vec<u8>> = Vec::new();
+  for b in 0..=255u8 {
+    v.push(vec![b]);
+    v.push(vec![b'a', b, b'z']);
+  }
+  for c in ['\u{80}', '\u{7ff}', '\u{800}', '\u{2028}', '\u{2029}', '\u{d7ff}', '\u{e000}', '\u{fffd}', '\u{ffff}', '\u{10000}', '\u{10ffff}'] {
+    v.push(c.to_string().into_bytes());
+    v.push(format!("a{c}z").into_bytes());
+  }
+  for s in [r"\u0041", r"\n", r#"\""#, r"\\", r"\u00", r#""}"#, r#"","x":""#, "\r\n", "\u{1}\u{1f}", r"\ud800", "/", r"\/", "\u{8}\u{c}"] {
+    v.push(s.as_bytes().to_vec());
+  }
+  // every string of length 2..=max_len over an alphabet of escape-relevant bytes (quote, backslash, the letters that
+  // follow a backslash in JSON escapes, control characters, DEL, the period, one two-byte UTF-8 scalar split in halves)
+  let mut level: Vec<Vec<u8>> = SWEEP_ALPHABET.iter().map(|b| vec![*b]).collect();
+  for _ in 2..=max_len {
+    level = level.iter().flat_map(|s| SWEEP_ALPHABET.iter().map(move |b| [&s[..], &[*b]].concat())).collect();
+    v.extend(level.iter().cloned());
+  }
+  let mut seen = std::collections::BTreeSet::new();
+  v.retain(|p| seen.insert(p.clone()));
+  v
+}
+const SWEEP_ALPHABET: [u8; 12] = [b'"', b'\\', b'/', b'u', b'n', 0x00, 0x1f, 0x7f, b'a', b'.', 0xc3, 0xa9];
+fn url_safe_only(p: &[u8]) -> bool {
+  p.iter().all(|b| b.is_ascii_alphanumeric() || matches!(*b, b'-' | b'_' | b'~'))
+}
 /// Does the JSON string form of this text need an escape (RFC 8259 §7: `"`, `\`, U+0000..U+001F)?
 fn needs_json_escape(p: &[u8]) -> bool {
   p.iter().any(|b| *b == b'"' || *b == b'\\' || *b < 0x20)
@@ -138,6 +185,8 @@ impl Verdict {
 enum Case {
   /// encoder index (ENC), payload index, per recipient (placement index, b64 mode index)
   Enc { enc: u8, payload: u8, recips: Vec<(u8, u8)> },
+  /// byte sweep: encoder index, b64 mode index, the payload bytes; one recipient with placement 0
+  Sweep { enc: u8, b64: u8, payload: Vec<u8> },
   /// choice sequence of the storage body (`note` = the labelled choices, informative only)
   Store {
     seq: Vec<u32>,
@@ -167,7 +216,7 @@ fn enc_family(enc: u8) -> &'static str {
 fn enc_detached(enc: u8) -> bool {
   matches!(enc, 3 | 5 | 7)
 }
-const PLACEMENT: [&str; 7] = [
+const PLACEMENT: [&str; 10] = [
   "protected{alg,kid,typ,x-app}",
   "protected{alg,kid}+unprotected{typ,x-app}",
   "protected{kid,typ,x-app}+unprotected{alg}",
@@ -175,7 +224,11 @@ const PLACEMENT: [&str; 7] = [
   "protected{alg}",
   "protected{alg,kid}+unprotected{kid,typ} (overlap)",
   "no header",
+  "protected{every registered parameter + two custom}",
+  "protected{alg,kid,jwk,url,nonce,x-app}+unprotected{typ,cty,jku,x5u,x5c,x5t,x5t#S256,x-other}",
+  "protected{alg,x-app}+unprotected{x-app} (custom overlap)",
 ];
+const N_PLACEMENT: u8 = 10;
 const B64MODE: [&str; 5] = ["absent", "true+crit", "false+crit", "false, no crit", "false+crit in the unprotected header"];
 
 /// The headers of recipient `i` for (placement, b64 mode).
@@ -229,6 +282,46 @@ fn headers(i: usize, placement: u8, b64: u8) -> (Option<JwsHeader>, Option<JwsHe
       p.set_kid(kid.clone());
       u.set_kid(kid);
       u.set_typ("example");
+      has_p = true;
+      has_u = true;
+    }
+    7 | 8 => {
+      let url = |s: &str| Url::parse(s).unwrap();
+      p.set_alg(JwsAlgorithm::EdDSA);
+      p.set_kid(kid);
+      p.set_jwk(pub_key(i));
+      p.set_url(url("https://example.com/acme/new-order"));
+      p.set_nonce(format!("n-{i}"));
+      let mut m = BTreeMap::new();
+      m.insert("x-app".to_string(), json!({"n": i}));
+      let other = json!([1, "two", null, {"k": "v\"\\\n"}]);
+      // the remaining registered parameters go to the protected header (7) or to the unprotected one (8)
+      let (q, mq) = if placement == 7 {
+        m.insert("x-other".to_string(), other);
+        (&mut p, None)
+      } else {
+        let mut mu = BTreeMap::new();
+        mu.insert("x-other".to_string(), other);
+        has_u = true;
+        (&mut u, Some(mu))
+      };
+      q.set_typ("example");
+      q.set_cty("application/example+json");
+      q.set_jku(url("https://example.com/keys.jwks"));
+      q.set_x5u(url("https://example.com/cert.pem"));
+      q.set_x5c(["MIIBszCCAVmgAwIBAgIB", "MIIBqDCCAU2gAwIBAgIB"]);
+      q.set_x5t("dGhpcyBpcyBhIFNIQS0xIHRodW1i");
+      q.set_x5t_s256("dGhpcyBpcyBhIFNIQS0yNTYgdGh1bWJwcmludA");
+      if let Some(mu) = mq {
+        q.set_custom(mu);
+      }
+      p.set_custom(m);
+      has_p = true;
+    }
+    9 => {
+      p.set_alg(JwsAlgorithm::EdDSA);
+      custom(&mut p);
+      custom(&mut u);
       has_p = true;
       has_u = true;
     }
@@ -332,10 +425,13 @@ fn decode_all<'a>(enc: u8, token: &'a str, detached: Option<&'a [u8]>) -> Result
 }
 
 fn judge_enc(enc: u8, payload_ix: u8, recips: &[(u8, u8)]) -> Verdict {
+  judge_enc_bytes(enc, &payloads()[payload_ix as usize], recips)
+}
+fn judge_enc_bytes(enc: u8, payload: &[u8], recips: &[(u8, u8)]) -> Verdict {
   let mut v = Verdict::default();
   let name = ENC[enc as usize];
   let fam = enc_family(enc);
-  let payload = payloads()[payload_ix as usize].clone();
+  let payload = payload.to_vec();
   let mut hs: Vec<_> = recips.iter().enumerate().map(|(i, (p, b))| headers(i, *p, *b)).collect();
   if enc < 4 && hs[0].0.is_none() {
     // the compact encoders always take a protected header; "no header" is the empty header there
@@ -363,6 +459,11 @@ fn judge_enc(enc: u8, payload_ix: u8, recips: &[(u8, u8)]) -> Verdict {
   v.nontrivial = true;
   let detached = enc_detached(enc);
   let b64_of = |i: usize| hs[i].0.as_ref().and_then(|h| h.b64()).unwrap_or(true);
+  // documented restriction of `CharSet::UrlSafe` (the payload "contains only the URL-safe characters 'a'-'z', 'A'-'Z',
+  // '0'-'9', '-', '_', '~'"); it applies to what ends up in the token, i.e. to unencoded payloads
+  if enc == 2 && !b64_of(0) && !url_safe_only(&payload) {
+    v.v("CompactJwsEncoder|accepted-unencoded-payload-outside-charset|UrlSafe", format!("{}: token {token}", what()));
+  }
   // The decoder's documented convention (RFC 7515 appendix F, storage tests): the detached payload is handed over in
   // the form it would have had inside the token, i.e. base64url-encoded unless b64 = false.
   let supplied: Vec<u8> = if b64_of(0) { b64url(&payload).into_bytes() } else { payload.clone() };
@@ -373,7 +474,8 @@ fn judge_enc(enc: u8, payload_ix: u8, recips: &[(u8, u8)]) -> Verdict {
       return v;
     }
     Ok(Err(e)) => {
-      let escape_class = !detached && enc >= 4 && !b64_of(0) && needs_json_escape(&payload);
+      // S12 (fixed): an unencoded payload that needs a JSON escape could not be borrowed by the JSON decoders
+      let escape_class = !detached && enc >= 4 && !b64_of(0) && needs_json_escape(&payload) && err_kind(&e) == "InvalidJson";
       if escape_class {
         v.v(
           "FlattenedJwsEncoder+GeneralJwsEncoder|output-rejected-by-own-decoder|unencoded-payload-with-json-escape",
@@ -503,39 +605,88 @@ impl JwkStorage for RecStore {
 }
 type Store = Storage<RecStore, KeyIdMemstore>;
 
-const DID: &str = "did:example:c08";
-const FRAGS: [&str; 3] = ["m1", "m2", "m3"];
-struct Fixture {
-  doc: CoreDocument,
-  twin: CoreDocument,
+const DIDS: [&str; 2] = ["did:example:c08", "did:iota:0x0c080c080c080c080c080c080c080c080c080c080c080c080c080c080c080c08"];
+const KIND: [&str; 2] = ["CoreDocument", "IotaDocument"];
+const FRAGS: [&str; 4] = ["m1", "m2", "m3", "m4"];
+const N_METHODS: usize = 4;
+
+enum AnyDoc {
+  Core(CoreDocument),
+  Iota(IotaDocument),
+}
+type Verified = Result<(Vec<u8>, Value), String>;
+impl AnyDoc {
+  fn core(&self) -> &CoreDocument {
+    match self {
+      AnyDoc::Core(d) => d,
+      AnyDoc::Iota(d) => d.as_ref(),
+    }
+  }
+  /// `CoreDocument::verify_jws` / `IotaDocument::verify_jws`
+  fn verify_jws(&self, jws: &Jws, detached: Option<&[u8]>, vo: &JwsVerificationOptions) -> Verified {
+    let verifier = EdDSAJwsVerifier::default();
+    match self {
+      AnyDoc::Core(d) => d.verify_jws(jws.as_str(), detached, &verifier, vo).map(|x| (x.claims.to_vec(), header_json(Some(&x.protected)))).map_err(|e| e.to_string()),
+      AnyDoc::Iota(d) => d.verify_jws(jws, detached, &verifier, vo).map(|x| (x.claims.to_vec(), header_json(Some(&x.protected)))).map_err(|e| e.to_string()),
+    }
+  }
+}
+async fn populate<D: JwkDocumentExt>(doc: &mut D, storage: &Store) {
+  let scopes = [MethodScope::assertion_method(), MethodScope::VerificationMethod, MethodScope::VerificationMethod, MethodScope::authentication()];
+  for (f, s) in FRAGS.iter().zip(scopes) {
+    doc.generate_method(storage, JwkMemStore::ED25519_KEY_TYPE, JwsAlgorithm::EdDSA, Some(f), s).await.expect("generate_method");
+  }
+}
+/// (method index, relationship) references added after generation
+const REFERENCES: [(usize, MethodRelationship); 3] =
+  [(2, MethodRelationship::Authentication), (1, MethodRelationship::KeyAgreement), (1, MethodRelationship::CapabilityInvocation)];
+fn new_doc(kind: usize, storage: &Store) -> AnyDoc {
+  match kind {
+    0 => {
+      let mut doc = CoreDocument::builder(Object::new()).id(CoreDID::parse(DIDS[0]).unwrap()).build().expect("document");
+      vx::gate::block_on(populate(&mut doc, storage));
+      for (m, r) in REFERENCES {
+        assert!(doc.attach_method_relationship(&method_id(kind, m), r).expect("attach"));
+      }
+      AnyDoc::Core(doc)
+    }
+    _ => {
+      let mut doc = IotaDocument::new_with_id(IotaDID::parse(DIDS[1]).expect("iota did"));
+      vx::gate::block_on(populate(&mut doc, storage));
+      for (m, r) in REFERENCES {
+        assert!(doc.attach_method_relationship(&method_id(kind, m), r).expect("attach"));
+      }
+      AnyDoc::Iota(doc)
+    }
+  }
+}
+struct Side {
+  doc: AnyDoc,
+  twin: AnyDoc,
   storage: Store,
+}
+struct Fixture {
+  sides: [Side; 2],
 }
 fn new_store() -> Store {
   Storage::new(RecStore { inner: JwkMemStore::new(), signed: RefCell::new(Vec::new()) }, KeyIdMemstore::new())
 }
-fn new_doc(storage: &Store) -> CoreDocument {
-  let mut doc = CoreDocument::builder(Object::new()).id(CoreDID::parse(DID).unwrap()).build().expect("document");
-  let scopes = [MethodScope::assertion_method(), MethodScope::VerificationMethod, MethodScope::VerificationMethod];
-  for (f, s) in FRAGS.iter().zip(scopes) {
-    vx::gate::block_on(doc.generate_method(storage, JwkMemStore::ED25519_KEY_TYPE, JwsAlgorithm::EdDSA, Some(f), s)).expect("generate_method");
-  }
-  let id3 = method_id(2);
-  assert!(doc.attach_method_relationship(&id3, MethodRelationship::Authentication).expect("attach"));
-  doc
-}
 impl Fixture {
   fn new() -> Fixture {
-    let storage = new_store();
-    let doc = new_doc(&storage);
-    let twin = new_doc(&new_store());
-    Fixture { doc, twin, storage }
+    let side = |kind: usize| {
+      let storage = new_store();
+      let doc = new_doc(kind, &storage);
+      let twin = new_doc(kind, &new_store());
+      Side { doc, twin, storage }
+    };
+    Fixture { sides: [side(0), side(1)] }
   }
 }
 thread_local! {
   static FIXTURE: Fixture = Fixture::new();
 }
-fn method_id(m: usize) -> DIDUrl {
-  DIDUrl::parse(format!("{DID}#{}", FRAGS[m])).unwrap()
+fn method_id(kind: usize, m: usize) -> DIDUrl {
+  DIDUrl::parse(format!("{}#{}", DIDS[kind], FRAGS[m])).unwrap()
 }
 const SCOPES: [Option<MethodScope>; 7] = [
   None,
@@ -546,13 +697,16 @@ const SCOPES: [Option<MethodScope>; 7] = [
   Some(MethodScope::VerificationRelationship(MethodRelationship::CapabilityDelegation)),
   Some(MethodScope::VerificationRelationship(MethodRelationship::CapabilityInvocation)),
 ];
-/// The document as built above: m1 only embedded in assertionMethod; m2 general; m3 general + authentication reference.
+/// The documents as built above, written down by hand: m1 only embedded in assertionMethod; m2 general + referenced
+/// from keyAgreement and capabilityInvocation; m3 general + referenced from authentication; m4 only embedded in
+/// authentication. (`MethodScope::VerificationMethod` = the general `verificationMethod` set only.)
 fn in_scope(m: usize, scope: usize) -> bool {
-  match scope {
-    0 => true,
-    1 => m == 1 || m == 2,
-    2 => m == 2,
-    3 => m == 0,
+  match (m, scope) {
+    (_, 0) => true,
+    (0, 3) => true,
+    (1, 1) | (1, 4) | (1, 6) => true,
+    (2, 1) | (2, 2) => true,
+    (3, 2) => true,
     _ => false,
   }
 }
@@ -560,11 +714,15 @@ fn in_scope(m: usize, scope: usize) -> bool {
 const ENTRY: [&str; 3] = ["create_jws", "create_credential_jwt", "create_presentation_jwt"];
 const KID: [&str; 5] = ["default", "custom-string", "other-method-id", "own-fragment", "own-id"];
 const CUSTOM: [&str; 7] = ["none", "x-app+x-n", "shadow:alg", "shadow:b64", "shadow:kid", "shadow:crit", "shadow:nonce"];
+const NONCE: [Option<&str>; 3] = [None, Some("nonce-1"), Some("")];
+const CREDS: [&str; 3] = ["minimal", "rich", "minimal+custom-claims"];
+const PRES: [&str; 4] = ["minimal/default-options", "minimal/exp+iat+aud+custom-claims", "rich/default-options", "rich/exp+iat+aud+custom-claims"];
 
 #[derive(Debug, Clone)]
 struct Plan {
   entry: usize,
   method: usize,
+  /// create_jws: index into the payload menu; create_credential_jwt: CREDS; create_presentation_jwt: PRES
   payload: usize,
   kid: usize,
   attach_jwk: bool,
@@ -572,7 +730,7 @@ struct Plan {
   typ: bool,
   cty: bool,
   url: bool,
-  nonce: bool,
+  nonce: usize,
   custom: usize,
   detached: bool,
 }
@@ -580,15 +738,15 @@ fn plan(ch: &mut Chooser) -> Plan {
   let entry = ch.choose("entry", 3);
   Plan {
     entry,
-    method: ch.choose("method", 3),
-    payload: if entry == 0 { ch.choose("payload", N_PAYLOADS) } else { 0 },
+    method: ch.choose("method", N_METHODS),
+    payload: ch.choose("payload", [N_PAYLOADS, CREDS.len(), PRES.len()][entry]),
     kid: ch.choose("kid", KID.len()),
     attach_jwk: ch.flag("attach_jwk"),
     b64: ch.choose("b64", 3),
     typ: ch.flag("typ"),
     cty: ch.flag("cty"),
     url: ch.flag("url"),
-    nonce: ch.flag("nonce"),
+    nonce: ch.choose("nonce", NONCE.len()),
     custom: ch.choose("custom", CUSTOM.len()),
     detached: ch.flag("detached"),
   }
@@ -619,40 +777,130 @@ fn custom_params(c: usize) -> Option<Object> {
   }
   Some(o)
 }
-fn credential() -> Credential {
-  CredentialBuilder::default()
-    .id(Url::parse("https://example.edu/credentials/3732").unwrap())
-    .issuer(Url::parse(DID).unwrap())
-    .type_("UniversityDegreeCredential")
-    .subject(Subject::with_id(Url::parse("did:example:subject").unwrap()))
-    .issuance_date(vx::fx::ts(vx::fx::NOW))
-    .build()
-    .expect("credential")
+fn obj(v: Value) -> Object {
+  match v {
+    Value::Object(m) => m.into_iter().collect(),
+    _ => unreachable!("object literal"),
+  }
 }
-fn presentation() -> Presentation<Jwt> {
-  PresentationBuilder::new(Url::parse(DID).unwrap(), Object::new()).credential(Jwt::new("eyJhbGciOiJFZERTQSJ9.e30.c2ln".to_string())).build().expect("presentation")
+/// The credential of the menu (issuer = the signing document) and the custom claims handed to `create_credential_jwt`.
+fn credential(kind: usize, ci: usize) -> (Credential, Option<Object>) {
+  let url = |s: &str| Url::parse(s).unwrap();
+  let mut b = CredentialBuilder::default()
+    .id(url("https://example.edu/credentials/3732"))
+    .issuer(url(DIDS[kind]))
+    .type_("UniversityDegreeCredential")
+    .issuance_date(vx::fx::ts(vx::fx::NOW));
+  if ci == 1 {
+    b = b
+      .context(url("https://www.w3.org/2018/credentials/examples/v1"))
+      .type_("AlumniCredential")
+      .expiration_date(vx::fx::ts(vx::fx::NOW + 86_400))
+      .subject(Subject::with_id_and_properties(
+        url("did:example:subject"),
+        obj(json!({"degree": {"type": "BachelorDegree", "name": "Bachelor of \"Science\" \\ Arts\n"}, "GPA": "4.0"})),
+      ))
+      .non_transferable(true)
+      .property("x-prop", json!([1, "two", {"three": null}]));
+  } else {
+    b = b.subject(Subject::with_id(url("did:example:subject")));
+  }
+  let claims = (ci == 2).then(|| obj(json!({"x-claim": {"a": [1, 2]}, "x-flag": true})));
+  (b.build().expect("credential"), claims)
+}
+/// The presentation of the menu (holder = the signing document) and the options handed to `create_presentation_jwt`.
+fn presentation(kind: usize, pi: usize) -> (Presentation<Jwt>, JwtPresentationOptions) {
+  let url = |s: &str| Url::parse(s).unwrap();
+  let properties = if pi >= 2 { obj(json!({"x-vp": {"k": ["v", 2]}})) } else { Object::new() };
+  let mut b = PresentationBuilder::new(url(DIDS[kind]), properties).credential(Jwt::new("eyJhbGciOiJFZERTQSJ9.e30.c2ln".to_string()));
+  if pi >= 2 {
+    b = b
+      .id(url("https://example.org/presentations/1"))
+      .context(url("https://www.w3.org/2018/credentials/examples/v1"))
+      .type_("ExamplePresentation")
+      .credential(Jwt::new("eyJhbGciOiJFZERTQSJ9.eyJ4IjoxfQ.c2lnMg".to_string()));
+  }
+  let mut o = JwtPresentationOptions::default();
+  if pi % 2 == 1 {
+    o = o.expiration_date(vx::fx::ts(vx::fx::NOW + 3600)).issuance_date(vx::fx::ts(vx::fx::NOW - 10)).audience(url("https://verifier.example/"));
+    o.custom_claims = Some(obj(json!({"x-claim": {"a": [1, 2]}, "x-flag": true})));
+  }
+  (b.build().expect("presentation"), o)
 }
 
 static VERIFICATIONS: AtomicU64 = AtomicU64::new(0);
+static VALIDATIONS: AtomicU64 = AtomicU64::new(0);
+const VERIFY_PER_TOKEN: usize = (N_METHODS + 1) * 7 * 4 + 2;
+
+/// Why an acceptance is forbidden (None = it is allowed): the statement's "never verifies under another method's key,
+/// a different nonce, or a scope that excludes that method" + the documented "kid must identify a method of the document
+/// unless the method is set in the options".
+fn forbidden(selected: Option<usize>, m: usize, scope: usize, nonce_same: bool) -> Option<&'static str> {
+  if !nonce_same {
+    Some("nonce-mismatch")
+  } else if selected.is_none() {
+    Some("unresolvable-kid")
+  } else if selected != Some(m) {
+    Some("other-method-key")
+  } else if !in_scope(m, scope) {
+    Some("method-outside-scope")
+  } else {
+    None
+  }
+}
+
+async fn produce<D: JwkDocumentExt>(doc: &D, storage: &Store, p: &Plan, kind: usize, payload: &[u8], o: &JwsSignatureOptions) -> Result<String, String> {
+  let frag = FRAGS[p.method];
+  match p.entry {
+    0 => doc.create_jws(storage, frag, payload, o).await.map(|j| j.as_str().to_string()),
+    1 => {
+      let (c, claims) = credential(kind, p.payload);
+      doc.create_credential_jwt(&c, storage, frag, o, claims).await.map(|j| j.as_str().to_string())
+    }
+    _ => {
+      let (pr, po) = presentation(kind, p.payload);
+      doc.create_presentation_jwt(&pr, storage, frag, o, &po).await.map(|j| j.as_str().to_string())
+    }
+  }
+  .map_err(|e| err_kind(&e))
+}
 
 fn judge_store(p: &Plan) -> Verdict {
-  FIXTURE.with(|fx| judge_store_on(fx, p))
+  FIXTURE.with(|fx| {
+    let mut v = judge_store_on(&fx.sides[0], 0, p);
+    let iota = judge_store_on(&fx.sides[1], 1, p);
+    // IotaDocument delegates to its CoreDocument: what the CoreDocument run already reported is the same defect, and is
+    // reported once, under the CoreDocument key. Only what is wrong on the IotaDocument alone gets an IotaDocument key.
+    let norm = |k: &str| k.replace("JwkDocumentExt(IotaDocument)::", "JwkDocumentExt::").replace("IotaDocument::verify_jws", "CoreDocument::verify_jws");
+    let core_keys: Vec<String> = v.viol.iter().map(|(k, _)| k.clone()).collect();
+    for (k, w) in iota.viol {
+      if !core_keys.contains(&norm(&k)) {
+        v.viol.push((k, w));
+      }
+    }
+    if iota.outcome != v.outcome {
+      v.outcome = format!("{} // IotaDocument: {}", v.outcome, iota.outcome);
+    }
+    v.nontrivial |= iota.nontrivial;
+    v
+  })
 }
-fn judge_store_on(fx: &Fixture, p: &Plan) -> Verdict {
+fn judge_store_on(side: &Side, kind: usize, p: &Plan) -> Verdict {
   let mut v = Verdict::default();
   let entry_name = ENTRY[p.entry];
   // create_credential_jwt / create_presentation_jwt are documented to sign through the same options as create_jws:
   // one key prefix for all three (the entry actually called is in the description), so that one defect has one key
-  let entry = "JwkDocumentExt::create_jws*";
+  let entry = ["JwkDocumentExt::create_jws*", "JwkDocumentExt(IotaDocument)::create_jws*"][kind];
+  let verify_entry = ["CoreDocument::verify_jws", "IotaDocument::verify_jws"][kind];
   let m = p.method;
-  let other = (m + 1) % 3;
+  let other = (m + 1) % N_METHODS;
   // ---- options
   let mut o = JwsSignatureOptions::new();
   match p.kid {
     1 => o = o.kid("custom-kid"),
-    2 => o = o.kid(method_id(other).to_string()),
+    2 => o = o.kid(method_id(kind, other).to_string()),
     3 => o = o.kid(format!("#{}", FRAGS[m])),
-    4 => o = o.kid(method_id(m).to_string()),
+    4 => o = o.kid(method_id(kind, m).to_string()),
     _ => {}
   }
   if p.attach_jwk {
@@ -673,8 +921,9 @@ fn judge_store_on(fx: &Fixture, p: &Plan) -> Verdict {
   if p.url {
     o = o.url(url.clone());
   }
-  if p.nonce {
-    o = o.nonce("nonce-1");
+  let token_nonce: Option<&str> = NONCE[p.nonce];
+  if let Some(n) = token_nonce {
+    o = o.nonce(n);
   }
   if let Some(c) = custom_params(p.custom) {
     o = o.custom_header_parameters(c);
@@ -682,23 +931,38 @@ fn judge_store_on(fx: &Fixture, p: &Plan) -> Verdict {
   if p.detached {
     o = o.detached_payload(true);
   }
-  // ---- payload
+  // ---- payload (for the JWT entries: the documented claims-set serialization of what is handed in; the conversion
+  // itself is C07's subject, the validators below judge the result independently of it)
   let payload: Vec<u8> = match p.entry {
     0 => payloads()[p.payload].clone(),
-    1 => credential().serialize_jwt(None).expect("serialize_jwt").into_bytes(),
-    _ => presentation().serialize_jwt(&JwtPresentationOptions::default()).expect("serialize_jwt").into_bytes(),
+    1 => {
+      let (c, claims) = credential(kind, p.payload);
+      c.serialize_jwt(claims).expect("serialize_jwt").into_bytes()
+    }
+    _ => {
+      let (pr, po) = presentation(kind, p.payload);
+      pr.serialize_jwt(&po).expect("serialize_jwt").into_bytes()
+    }
   };
-  let what = format!("{entry_name} for #{} with {o:?}, payload {:?}", FRAGS[m], String::from_utf8_lossy(&payload));
+  let what = format!(
+    "{} {entry_name}{} for #{} with {o:?}, payload {:?}",
+    KIND[kind],
+    match p.entry {
+      1 => format!("[{}]", CREDS[p.payload]),
+      2 => format!("[{}]", PRES[p.payload]),
+      _ => String::new(),
+    },
+    FRAGS[m],
+    String::from_utf8_lossy(&payload)
+  );
   // ---- produce
-  fx.storage.key_storage().signed.borrow_mut().clear();
+  side.storage.key_storage().signed.borrow_mut().clear();
   let produced: Result<Result<String, String>, vx::Panicked> = guard(|| {
     vx::gate::block_on(async {
-      match p.entry {
-        0 => fx.doc.create_jws(&fx.storage, FRAGS[m], &payload, &o).await.map(|j| j.as_str().to_string()),
-        1 => fx.doc.create_credential_jwt(&credential(), &fx.storage, FRAGS[m], &o, None).await.map(|j| j.as_str().to_string()),
-        _ => fx.doc.create_presentation_jwt(&presentation(), &fx.storage, FRAGS[m], &o, &JwtPresentationOptions::default()).await.map(|j| j.as_str().to_string()),
+      match &side.doc {
+        AnyDoc::Core(d) => produce(d, &side.storage, p, kind, &payload, &o).await,
+        AnyDoc::Iota(d) => produce(d, &side.storage, p, kind, &payload, &o).await,
       }
-      .map_err(|e| err_kind(&e))
     })
   });
   let shape = format!("b64={},{}", ["unset", "true", "false"][p.b64], if p.detached { "detached" } else { "attached" });
@@ -708,14 +972,14 @@ fn judge_store_on(fx: &Fixture, p: &Plan) -> Verdict {
       v.outcome = format!("store:{entry_name}:panic");
       return v;
     }
-    Ok(Err(kind)) => {
-      v.outcome = format!("store:{entry_name}:refused:{kind}:{shape}");
+    Ok(Err(ek)) => {
+      v.outcome = format!("store:{entry_name}:refused:{ek}:{shape}");
       return v;
     }
     Ok(Ok(t)) => t,
   };
   v.nontrivial = true;
-  let signed: Vec<Vec<u8>> = fx.storage.key_storage().signed.borrow().clone();
+  let signed: Vec<Vec<u8>> = side.storage.key_storage().signed.borrow().clone();
   // detached payloads are handed to the decoder in their in-token form (base64url unless b64 = false)
   let supplied: Vec<u8> = if p.b64 != 2 { b64url(&payload).into_bytes() } else { payload.clone() };
   let detached_payload: Option<&[u8]> = p.detached.then_some(&supplied[..]);
@@ -746,8 +1010,8 @@ fn judge_store_on(fx: &Fixture, p: &Plan) -> Verdict {
     }
     Ok(Ok(item)) => item,
   };
-  // ---- what was signed
-  if signed.len() != 1 || item.signing_input() != &signed[0][..] {
+  // ---- what was signed (the key store may be asked more than once; the token must carry one of the signed inputs)
+  if !signed.iter().any(|s| item.signing_input() == &s[..]) {
     v.v(format!("{entry}|decoded-signing-input-differs-from-signed-bytes"), format!("{what}: token {token}: {} sign calls", signed.len()));
   }
   if item.claims() != &payload[..] {
@@ -755,14 +1019,16 @@ fn judge_store_on(fx: &Fixture, p: &Plan) -> Verdict {
   }
   let want_b64 = p.b64 != 2;
   let seg0 = token.split('.').next().unwrap_or("");
-  if signed.first().map(|s| &s[..]) != Some(&formula(seg0, want_b64, &payload)[..]) {
+  let rfc = formula(seg0, want_b64, &payload);
+  if !signed.iter().any(|s| s[..] == rfc[..]) {
     v.v(format!("{entry}|signed-bytes-are-not-the-rfc-formula"), format!("{what}: token {token}"));
   }
   // ---- header against the options
-  let method_jwk: Jwk = match fx.doc.resolve_method(FRAGS[m], None).map(|x| x.data()) {
+  let method_jwk: Jwk = match side.doc.core().resolve_method(FRAGS[m], None).map(|x| x.data()) {
     Some(MethodData::PublicKeyJwk(j)) => j.clone(),
     _ => unreachable!("fixture method"),
   };
+  let token_header = header_json(item.protected_header());
   match item.protected_header() {
     None => v.v(format!("{entry}|no-protected-header"), what.clone()),
     Some(h) => {
@@ -772,9 +1038,9 @@ fn judge_store_on(fx: &Fixture, p: &Plan) -> Verdict {
       }
       let want_kid = match p.kid {
         1 => "custom-kid".to_string(),
-        2 => method_id(other).to_string(),
+        2 => method_id(kind, other).to_string(),
         3 => format!("#{}", FRAGS[m]),
-        _ => method_id(m).to_string(),
+        _ => method_id(kind, m).to_string(),
       };
       if h.kid() != Some(want_kid.as_str()) {
         bad("kid", format!("{:?}", h.kid()));
@@ -788,7 +1054,7 @@ fn judge_store_on(fx: &Fixture, p: &Plan) -> Verdict {
       if h.url() != p.url.then_some(&url) {
         bad("url", format!("{:?}", h.url()));
       }
-      if h.nonce() != p.nonce.then_some("nonce-1") {
+      if h.nonce() != token_nonce {
         bad("nonce", format!("{:?}", h.nonce()));
       }
       if h.jwk() != p.attach_jwk.then_some(&method_jwk) {
@@ -810,62 +1076,59 @@ fn judge_store_on(fx: &Fixture, p: &Plan) -> Verdict {
   }
   drop(item);
   // ---- verification matrix
-  let verifier = EdDSAJwsVerifier::default();
+  // selector the verification is asked to use, by the documented rule: options.method_id, else the token's kid
+  let selected_by = |pinned: Option<usize>| -> Option<usize> {
+    match (pinned, p.kid) {
+      (Some(x), _) => Some(x),
+      (None, 1) => None,
+      (None, 2) => Some(other),
+      (None, _) => Some(m),
+    }
+  };
+  // nonce the verifier expects: same as the token's; a different one; presence flipped; empty / non-empty flipped
+  let nonce_variants: [Option<&str>; 4] = [
+    token_nonce,
+    Some("different-nonce"),
+    if token_nonce.is_some() { None } else { Some("nonce-1") },
+    if token_nonce == Some("") { Some("nonce-1") } else { Some("") },
+  ];
+  let jws = Jws::new(token.clone());
   let mut accepted = 0;
-  for mid in 0..4usize {
-    // selector the verification is asked to use, by the documented rule: options.method_id, else the token's kid
-    let selected: Option<usize> = if mid > 0 {
-      Some(mid - 1)
-    } else {
-      match p.kid {
-        1 => None,
-        2 => Some(other),
-        _ => Some(m),
-      }
-    };
+  for mid in 0..=N_METHODS {
+    let pinned = mid.checked_sub(1);
+    let selected = selected_by(pinned);
     for (si, scope) in SCOPES.iter().enumerate() {
-      for nv in 0..3usize {
+      for (nv, expect_nonce) in nonce_variants.iter().enumerate() {
         let mut vo = JwsVerificationOptions::new();
-        if mid > 0 {
-          vo = vo.method_id(method_id(mid - 1));
+        if let Some(x) = pinned {
+          vo = vo.method_id(method_id(kind, x));
         }
         if let Some(s) = scope {
           vo = vo.method_scope(*s);
         }
-        match (nv, p.nonce) {
-          (0, true) => vo = vo.nonce("nonce-1"),
-          (0, false) => {}
-          (1, _) => vo = vo.nonce("different-nonce"),
-          (_, true) => {}
-          (_, false) => vo = vo.nonce("nonce-1"),
+        if let Some(n) = expect_nonce {
+          vo = vo.nonce(*n);
         }
         VERIFICATIONS.fetch_add(1, Ordering::Relaxed);
-        let r = guard(|| fx.doc.verify_jws(&token, detached_payload, &verifier, &vo).map(|d| (d.claims.to_vec(), header_json(Some(&d.protected)))).map_err(|e| e.to_string()));
+        let r = guard(|| side.doc.verify_jws(&jws, detached_payload, &vo));
         let ctx_txt = || format!("{what}: token {token}; verify with method_id {:?}, scope {:?}, nonce {:?}", vo.method_id.as_ref().map(|d| d.to_string()), scope.map(|s| s.as_str()), vo.nonce);
-        let may = selected == Some(m) && in_scope(m, si) && nv == 0;
-        let must = may && !(mid == 0 && p.kid == 3);
+        let why_not = forbidden(selected, m, si, nv == 0);
+        let must = why_not.is_none() && !(pinned.is_none() && p.kid == 3);
         match r {
-          Err(pn) => v.v(format!("CoreDocument::verify_jws|{}", pn.key()), format!("{}: {}", ctx_txt(), pn.msg)),
-          Ok(Ok((claims, _))) => {
+          Err(pn) => v.v(format!("{verify_entry}|{}", pn.key()), format!("{}: {}", ctx_txt(), pn.msg)),
+          Ok(Ok((claims, header))) => {
             accepted += 1;
-            if !may {
-              let why = if nv != 0 {
-                "nonce-mismatch"
-              } else if selected.is_none() {
-                "unresolvable-kid"
-              } else if selected != Some(m) {
-                "other-method-key"
-              } else {
-                "method-outside-scope"
-              };
-              v.v(format!("CoreDocument::verify_jws|accepted|{why}"), ctx_txt());
+            if let Some(why) = why_not {
+              v.v(format!("{verify_entry}|accepted|{why}"), ctx_txt());
             } else if claims != payload {
-              v.v("CoreDocument::verify_jws|accepted|claims-differ-from-payload", ctx_txt());
+              v.v(format!("{verify_entry}|accepted|claims-differ-from-payload"), ctx_txt());
+            } else if header != token_header {
+              v.v(format!("{verify_entry}|accepted|header-differs-from-token"), ctx_txt());
             }
           }
           Ok(Err(e)) => {
             if must {
-              v.v(format!("CoreDocument::verify_jws|rejected|own-token-for-its-method"), format!("{}: {e}", ctx_txt()));
+              v.v(format!("{verify_entry}|rejected|own-token-for-its-method"), format!("{}: {e}", ctx_txt()));
             }
           }
         }
@@ -876,17 +1139,129 @@ fn judge_store_on(fx: &Fixture, p: &Plan) -> Verdict {
   for mid in [None, Some(m)] {
     let mut vo = JwsVerificationOptions::new();
     if let Some(x) = mid {
-      vo = vo.method_id(method_id(x));
+      vo = vo.method_id(method_id(kind, x));
     }
-    if p.nonce {
-      vo = vo.nonce("nonce-1");
+    if let Some(n) = token_nonce {
+      vo = vo.nonce(n);
     }
     VERIFICATIONS.fetch_add(1, Ordering::Relaxed);
-    if matches!(guard(|| fx.twin.verify_jws(&token, detached_payload, &verifier, &vo).map(|_| ())), Ok(Ok(()))) {
-      v.v("CoreDocument::verify_jws|accepted|other-document-same-ids", format!("{what}: token {token}"));
+    if matches!(guard(|| side.twin.verify_jws(&jws, detached_payload, &vo).map(|_| ())), Ok(Ok(()))) {
+      v.v(format!("{verify_entry}|accepted|other-document-same-ids"), format!("{what}: token {token}"));
     }
   }
-  v.outcome = format!("store:{entry_name}:signed:{shape}:kid={}:accepting-verifications={accepted}", KID[p.kid]);
+  // ---- credential / presentation JWTs: through the validators, with the signing document as issuer / holder
+  let mut validated = 0;
+  if p.entry != 0 {
+    let validator_entry = ["", "JwtCredentialValidator::validate", "JwtPresentationValidator::validate"][p.entry];
+    let jwt = Jwt::new(token.clone());
+    let scope_in = (1..7).find(|s| in_scope(m, *s)).expect("every method is in some scope");
+    let scope_out = (1..7).find(|s| !in_scope(m, *s)).expect("every method is outside some scope");
+    for pinned in [None, Some(m), Some(other)] {
+      let selected = selected_by(pinned);
+      for si in [0, scope_in, scope_out] {
+        for nv in 0..2 {
+          let mut vo = JwsVerificationOptions::new();
+          if let Some(x) = pinned {
+            vo = vo.method_id(method_id(kind, x));
+          }
+          if let Some(s) = SCOPES[si] {
+            vo = vo.method_scope(s);
+          }
+          if let Some(n) = nonce_variants[nv] {
+            vo = vo.nonce(n);
+          }
+          let ctx_txt = || format!("{what}: token {token}; validate with method_id {:?}, scope {:?}, nonce {:?}", vo.method_id.as_ref().map(|d| d.to_string()), SCOPES[si].map(|s| s.as_str()), vo.nonce);
+          let why_not = forbidden(selected, m, si, nv == 0);
+          let must = why_not.is_none() && !(pinned.is_none() && p.kid == 3);
+          VALIDATIONS.fetch_add(1, Ordering::Relaxed);
+          // Ok(list of (field, detail) in which the returned object differs from what was signed) / Err(rejection)
+          let r: Result<Result<Vec<(&'static str, String)>, String>, vx::Panicked> = if p.entry == 1 {
+            let (cred, claims) = credential(kind, p.payload);
+            let opts = JwtCredentialValidationOptions::new()
+              .verification_options(vo.clone())
+              .latest_issuance_date(vx::fx::ts(vx::fx::NOW))
+              .earliest_expiry_date(vx::fx::ts(vx::fx::NOW));
+            guard(|| {
+              let validator = JwtCredentialValidator::with_signature_verifier(EdDSAJwsVerifier::default());
+              let d = match &side.doc {
+                AnyDoc::Core(d) => validator.validate::<CoreDocument, Object>(&jwt, d, &opts, FailFast::FirstError),
+                AnyDoc::Iota(d) => validator.validate::<IotaDocument, Object>(&jwt, d, &opts, FailFast::FirstError),
+              }
+              .map_err(|e| e.to_string())?;
+              let mut diff = Vec::new();
+              if d.credential != cred {
+                diff.push(("credential", format!("{}", d.credential)));
+              }
+              if d.custom_claims.clone().unwrap_or_default() != claims.unwrap_or_default() {
+                diff.push(("custom-claims", format!("{:?}", d.custom_claims)));
+              }
+              if header_json(Some(&d.header)) != token_header {
+                diff.push(("header", header_json(Some(&d.header)).to_string()));
+              }
+              Ok(diff)
+            })
+          } else {
+            let (pres, po) = presentation(kind, p.payload);
+            let opts = JwtPresentationValidationOptions::new()
+              .presentation_verifier_options(vo.clone())
+              .latest_issuance_date(vx::fx::ts(vx::fx::NOW))
+              .earliest_expiry_date(vx::fx::ts(vx::fx::NOW));
+            guard(|| {
+              let validator = JwtPresentationValidator::with_signature_verifier(EdDSAJwsVerifier::default());
+              let d = match &side.doc {
+                AnyDoc::Core(d) => validator.validate::<CoreDocument, Jwt, Object>(&jwt, d, &opts),
+                AnyDoc::Iota(d) => validator.validate::<IotaDocument, Jwt, Object>(&jwt, d, &opts),
+              }
+              .map_err(|e| e.to_string())?;
+              let mut diff = Vec::new();
+              if d.presentation != pres {
+                diff.push(("presentation", format!("{}", d.presentation)));
+              }
+              if d.aud != po.audience {
+                diff.push(("aud", format!("{:?}", d.aud)));
+              }
+              if d.expiration_date != po.expiration_date {
+                diff.push(("expiration-date", format!("{:?}", d.expiration_date)));
+              }
+              if d.issuance_date != po.issuance_date {
+                diff.push(("issuance-date", format!("{:?}", d.issuance_date)));
+              }
+              if d.custom_claims.clone().unwrap_or_default() != po.custom_claims.clone().unwrap_or_default() {
+                diff.push(("custom-claims", format!("{:?}", d.custom_claims)));
+              }
+              if header_json(Some(&d.header)) != token_header {
+                diff.push(("header", header_json(Some(&d.header)).to_string()));
+              }
+              Ok(diff)
+            })
+          };
+          match r {
+            Err(pn) => v.v(format!("{validator_entry}|{}", pn.key()), format!("{}: {}", ctx_txt(), pn.msg)),
+            Ok(Ok(diff)) => {
+              validated += 1;
+              if let Some(why) = why_not {
+                v.v(format!("{validator_entry}|accepted|{why}"), ctx_txt());
+              } else {
+                for (field, got) in diff {
+                  v.v(format!("{validator_entry}|accepted|returned-{field}-differs-from-signed"), format!("{}: got {got}", ctx_txt()));
+                }
+              }
+            }
+            Ok(Err(e)) => {
+              if must {
+                v.v(format!("{validator_entry}|rejected|own-{}-for-its-method", ["", "credential-jwt", "presentation-jwt"][p.entry]), format!("{}: {e}", ctx_txt()));
+              }
+            }
+          }
+        }
+      }
+    }
+  }
+  v.outcome = format!(
+    "store:{entry_name}:signed:{shape}:kid={}:accepting-verifications={accepted}{}",
+    KID[p.kid],
+    if p.entry != 0 { format!(":accepting-validations={validated}") } else { String::new() }
+  );
   v
 }
 
@@ -920,6 +1295,16 @@ fn eval(ctx: &Ctx, case: &Case) {
         ctx.distinct(&(0u8, enc, payload, recips));
       }
     }
+    Case::Sweep { enc, b64, payload } => {
+      let v = judge_enc_bytes(*enc, payload, &[(0, *b64)]);
+      for (k, w) in &v.viol {
+        ctx.violation(k, w, case);
+      }
+      ctx.outcome(&v.outcome);
+      if v.nontrivial {
+        ctx.distinct(&(2u8, enc, b64, payload));
+      }
+    }
     Case::Store { seq, .. } => store_body(ctx, &mut Chooser::replay(seq)),
   }
 }
@@ -932,14 +1317,19 @@ fn run_enc_part(ctx: &Ctx, part: &str, cases: &[Case]) {
     let mut hist: BTreeMap<String, u64> = BTreeMap::new();
     let mut distinct = Vec::new();
     for c in chunk {
-      let Case::Enc { enc, payload, recips } = c else { continue };
-      let v = judge_enc(*enc, *payload, recips);
+      let (v, h) = match c {
+        Case::Enc { enc, payload, recips } => (judge_enc(*enc, *payload, recips), Ctx::hash_of(&(0u8, enc, payload, recips))),
+        Case::Sweep { enc, b64, payload } => (judge_enc_bytes(*enc, payload, &[(0, *b64)]), Ctx::hash_of(&(2u8, enc, b64, payload))),
+        Case::Store { .. } => continue,
+      };
       for (k, w) in &v.viol {
         ctx.violation(k, w, c);
       }
-      *hist.entry(v.outcome).or_insert(0) += 1;
+      // the sweep would otherwise contribute one label per encoder only: keep its histogram apart
+      let label = if matches!(c, Case::Sweep { .. }) { format!("sweep:{}", v.outcome) } else { v.outcome };
+      *hist.entry(label).or_insert(0) += 1;
       if v.nontrivial {
-        distinct.push(Ctx::hash_of(&(0u8, enc, payload, recips)));
+        distinct.push(h);
       }
     }
     ctx.outcomes_merge(&hist);
@@ -962,9 +1352,10 @@ fn self_test(ctx: &Ctx) {
 }
 
 fn generate(ctx: &Ctx) {
-  ctx.rule("(a) full product encoder x payload x per-recipient (header placement x b64 mode); (b) choice DFS over (entry, method, payload, kid, attach_jwk, b64, typ, cty, url, nonce, custom, detached), each produced token verified under the complete (method_id x scope x nonce) matrix. distinct_nontrivial = distinct cases in which the library actually produced a token (encoder / create_* refusals are the trivial outcome)");
+  ctx.rule("(a) full product encoder x payload x per-recipient (header placement x b64 mode), plus the byte sweep (every byte alone / embedded, UTF-8 boundary scalars, escape look-alikes, all strings up to length 2 / 4 over a 12-byte escape-relevant alphabet) x encoder x b64 {absent, false+crit}; (b) choice DFS over (entry, method, payload / credential / presentation+options, kid, attach_jwk, b64, typ, cty, url, nonce, custom, detached), every case on a CoreDocument and on an IotaDocument, each produced token verified under the complete (method_id x scope x nonce) matrix and, for credential / presentation JWTs, through the validators. distinct_nontrivial = distinct cases in which the library actually produced a token (encoder / create_* refusals are the trivial outcome)");
   ctx.assume("Ed25519 (iota-crypto) and the EdDSA verifier crate are trusted as signature primitives; harness keys are fixed-seed, store keys are random opaque handles");
   ctx.assume("verification liveness is demanded only where `alg` is in the protected header (documented precondition of JwsValidationItem::verify) and, on the storage path, where the method is selected by options.method_id or by a kid equal to the method's full id");
+  ctx.assume("encoder / create_* refusals are recorded, never judged; custom header parameters that shadow registered ones are recorded, never judged; the claims-set serialization of credentials / presentations (Credential::serialize_jwt, Presentation::serialize_jwt) is C07's subject and is used here to know the payload bytes");
   self_test(ctx);
   let thorough = ctx.thorough();
 
@@ -973,7 +1364,7 @@ fn generate(ctx: &Ctx) {
   let mut single = Vec::new();
   for enc in 0..4u8 {
     for payload in 0..n_pay {
-      for placement in [0u8, 4, 6] {
+      for placement in [0u8, 4, 6, 7] {
         for b64 in 0..4u8 {
           single.push(Case::Enc { enc, payload, recips: vec![(placement, b64)] });
         }
@@ -982,7 +1373,7 @@ fn generate(ctx: &Ctx) {
   }
   for enc in 4..8u8 {
     for payload in 0..n_pay {
-      for placement in 0..7u8 {
+      for placement in 0..N_PLACEMENT {
         for b64 in 0..5u8 {
           single.push(Case::Enc { enc, payload, recips: vec![(placement, b64)] });
         }
@@ -990,7 +1381,17 @@ fn generate(ctx: &Ctx) {
     }
   }
   run_enc_part(ctx, "encoders: one signature", &single);
-  let all: Vec<(u8, u8)> = (0..7u8).flat_map(|p| (0..5u8).map(move |b| (p, b))).collect();
+  let mut sweep = Vec::new();
+  let sweep_len = if thorough { 4 } else { 2 };
+  for payload in sweep_payloads(sweep_len) {
+    for enc in 0..8u8 {
+      for b64 in [0u8, 2] {
+        sweep.push(Case::Sweep { enc, b64, payload: payload.clone() });
+      }
+    }
+  }
+  run_enc_part(ctx, "encoders: byte sweep", &sweep);
+  let all: Vec<(u8, u8)> = (0..N_PLACEMENT).flat_map(|p| (0..5u8).map(move |b| (p, b))).collect();
   let reduced: Vec<(u8, u8)> = [0u8, 1, 2, 3].iter().flat_map(|p| [0u8, 2].map(move |b| (*p, b))).collect();
   let mut two = Vec::new();
   for enc in 6..8u8 {
@@ -1003,6 +1404,7 @@ fn generate(ctx: &Ctx) {
     }
   }
   run_enc_part(ctx, "encoders: general, two signatures", &two);
+  drop(two);
   let mut three = Vec::new();
   let set3: &Vec<(u8, u8)> = if thorough { &all } else { &reduced };
   for enc in 6..8u8 {
@@ -1017,8 +1419,27 @@ fn generate(ctx: &Ctx) {
     }
   }
   run_enc_part(ctx, "encoders: general, three signatures", &three);
-  ctx.bound("general_recipients", 3);
-  ctx.bound("three_recipient_alphabet", if thorough { "all 35 (placement, b64) pairs" } else { "8 (placement, b64) pairs: placements 0-3 x b64 {absent, false+crit}" });
+  drop(three);
+  if thorough {
+    let mut four = Vec::new();
+    for enc in 6..8u8 {
+      for payload in 0..n_pay {
+        for a in &reduced {
+          for b in &reduced {
+            for c in &reduced {
+              for d in &reduced {
+                four.push(Case::Enc { enc, payload, recips: vec![*a, *b, *c, *d] });
+              }
+            }
+          }
+        }
+      }
+    }
+    run_enc_part(ctx, "encoders: general, four signatures", &four);
+  }
+  ctx.bound("general_recipients", if thorough { 4 } else { 3 });
+  ctx.bound("three_recipient_alphabet", if thorough { "all 50 (placement, b64) pairs" } else { "8 (placement, b64) pairs: placements 0-3 x b64 {absent, false+crit}" });
+  ctx.bound("four_recipient_alphabet", if thorough { "8 (placement, b64) pairs: placements 0-3 x b64 {absent, false+crit}" } else { "not run" });
   if !thorough {
     ctx.cap_hit("encoders: three-signature cases use the reduced 8-pair recipient alphabet in the quick tier (one- and two-signature products are complete)");
   }
@@ -1026,9 +1447,16 @@ fn generate(ctx: &Ctx) {
   // ---------- (b)
   let bound = if thorough { None } else { Some(4) };
   let st = choice::explore_into(ctx, "storage", bound, |ch| store_body(ctx, ch));
-  ctx.part("storage: verify_jws calls", json!({"verify_jws_calls": VERIFICATIONS.load(Ordering::Relaxed), "per_token": 86, "tokens_or_refusals": st.executions}));
+  ctx.part(
+    "storage: verify_jws / validator calls",
+    json!({"verify_jws_calls": VERIFICATIONS.load(Ordering::Relaxed), "verify_jws_per_token_and_document_kind": VERIFY_PER_TOKEN,
+      "validator_calls": VALIDATIONS.load(Ordering::Relaxed), "validator_calls_per_jwt_and_document_kind": 18, "document_kinds": KIND, "cases": st.executions}),
+  );
   ctx.bound("storage_deviation_bound", bound);
   ctx.bound("payload_menu", payloads().iter().map(|p| String::from_utf8_lossy(p).into_owned()).collect::<Vec<_>>());
+  ctx.bound("sweep_payloads", json!({"count": sweep_payloads(sweep_len).len(), "strings_over_escape_alphabet_up_to_length": sweep_len, "alphabet_bytes": SWEEP_ALPHABET}));
+  ctx.bound("credential_menu", CREDS);
+  ctx.bound("presentation_menu", PRES);
   ctx.bound("placements", PLACEMENT);
   ctx.bound("b64_modes", B64MODE);
 }
